@@ -121,3 +121,57 @@ fn x7() {
     core::mem::forget(r);
     core::mem::forget(p);
 }
+
+#[kani::proof]
+#[kani::stub(core::fmt::write, no_fmt)]
+fn x_entry_sorted() {
+    use netflow_parser::variable_versions::ipfix::{Template, TemplateField};
+    use netflow_parser::variable_versions::ipfix_lookup::IPFixField;
+    use netflow_parser::verif_shim::VMap;
+    let mut m: VMap<u16, Template> = VMap::new();
+    let c0: u16 = kani::any();
+    m.insert(c0, Template { template_id: c0, field_count: 1, fields: vec![TemplateField { field_type_number: 1, field_type: IPFixField::OctetDeltaCount, field_length: kani::any(), enterprise_number: None }], padding: vec![] });
+    let k: u16 = kani::any();
+    let t = Template { template_id: k, field_count: 0, fields: vec![], padding: vec![] };
+    m.entry(k).or_insert_with(|| t.clone());
+    assert!(m.contains_key(&k));
+    assert!(m.len() == if k == c0 { 1 } else { 2 });
+    core::mem::forget(m);
+    core::mem::forget(t);
+}
+
+#[kani::proof]
+#[kani::stub(core::fmt::write, no_fmt)]
+fn x_entry_unsorted() {
+    use netflow_parser::variable_versions::ipfix::{Template, TemplateField};
+    use netflow_parser::variable_versions::ipfix_lookup::IPFixField;
+    use netflow_parser::verif_shim::VHashMap;
+    let mut m: VHashMap<u16, Template> = VHashMap::new();
+    let c0: u16 = kani::any();
+    m.insert(c0, Template { template_id: c0, field_count: 1, fields: vec![TemplateField { field_type_number: 1, field_type: IPFixField::OctetDeltaCount, field_length: kani::any(), enterprise_number: None }], padding: vec![] });
+    let k: u16 = kani::any();
+    let t = Template { template_id: k, field_count: 0, fields: vec![], padding: vec![] };
+    m.entry(k).or_insert_with(|| t.clone());
+    assert!(m.contains_key(&k));
+    assert!(m.len() == if k == c0 { 1 } else { 2 });
+    core::mem::forget(m);
+    core::mem::forget(t);
+}
+
+#[kani::proof]
+#[kani::stub(core::fmt::write, no_fmt)]
+fn x_insert_sorted() {
+    use netflow_parser::variable_versions::ipfix::{Template, TemplateField};
+    use netflow_parser::variable_versions::ipfix_lookup::IPFixField;
+    use netflow_parser::verif_shim::VMap;
+    let mut m: VMap<u16, Template> = VMap::new();
+    let c0: u16 = kani::any();
+    m.insert(c0, Template { template_id: c0, field_count: 1, fields: vec![TemplateField { field_type_number: 1, field_type: IPFixField::OctetDeltaCount, field_length: kani::any(), enterprise_number: None }], padding: vec![] });
+    let k: u16 = kani::any();
+    let t = Template { template_id: k, field_count: 0, fields: vec![], padding: vec![] };
+    m.insert(k, t.clone());
+    assert!(m.contains_key(&k));
+    assert!(m.len() == if k == c0 { 1 } else { 2 });
+    core::mem::forget(m);
+    core::mem::forget(t);
+}
